@@ -273,11 +273,54 @@ func steppedOverPrerelease(req, v string) bool {
 	return false
 }
 
+// lessThanZero: a comparator "<0", "<0.0" or "<0.0.0" is the empty set for the
+// library (pinned by TestConstraintToSet, "<0"), so a prerelease of 0.0.0 that
+// another comparator of the same requirement admits is refused.
+var lessThanZeroRE = regexp.MustCompile(`<\s*v?0(\.0){0,2}(\+[0-9A-Za-z.-]*)?\s*(,|$|\|| [^-])`)
+
+func lessThanZero(req, v string) bool {
+	return strings.HasPrefix(strings.TrimPrefix(v, "v"), "0.0.0-") && lessThanZeroRE.MatchString(req)
+}
+
+// mergedAwayPrereleaseBound: two alternatives of a "||" requirement meet at a
+// prerelease bound with the numbers of the candidate, and the printed set no
+// longer has a bound with those numbers (the C09 finding
+// union-merge-loses-prerelease-bound, seen through ParseConstraint).
+func mergedAwayPrereleaseBound(req, v, observed string) bool {
+	if !strings.Contains(req, "||") {
+		return false
+	}
+	num, _, isPre := strings.Cut(strings.TrimPrefix(v, "v"), "-")
+	if !isPre {
+		return false
+	}
+	named := false
+	for _, m := range regexp.MustCompile(`v?([0-9]+\.[0-9]+\.[0-9]+)-[0-9A-Za-z]`).FindAllStringSubmatch(req, -1) {
+		if m[1] == num {
+			named = true
+		}
+	}
+	i, j := strings.Index(observed, "(set "), strings.Index(observed, ") Match(")
+	if !named || i < 0 || j < i {
+		return false
+	}
+	set := observed[i:j]
+	return strings.Count(set, "[")+strings.Count(set, "(") < strings.Count(req, "||")+1+1 && !strings.Contains(set, num+"-")
+}
+
 func knownClass(e *eco, f failure, req string) string {
-	switch e.name {
-	case "npm":
+	if e.name == "npm" || e.name == "cargo" {
 		if (f.law == "match" || f.law == "matchrequirement") && strings.Contains(f.expected, "true") && steppedOverPrerelease(req, f.v) && kf.Open("C03", "GreaterThanStepsOverPrerelease") {
 			return "GreaterThanStepsOverPrerelease"
+		}
+		if f.law == "match" && f.expected == "true" && lessThanZero(req, f.v) && strings.Contains(f.observed, "(set {<empty>})") && kf.Open("C03", "LessThanZeroIsEmpty") {
+			return "LessThanZeroIsEmpty"
+		}
+	}
+	switch e.name {
+	case "npm":
+		if f.law == "match" && f.expected == "true" && mergedAwayPrereleaseBound(req, f.v, f.observed) && kf.Open("C03", "UnionMergeLosesPrereleaseBound") {
+			return "UnionMergeLosesPrereleaseBound"
 		}
 		if f.law == "rejected-nonempty" && emptyAltRE.MatchString(req) && kf.Open("C03", "NPMEmptyAlternative") {
 			return "NPMEmptyAlternative"
